@@ -214,13 +214,38 @@ theorem tCov_eq (A : List (Iv α)) (B : List (Iv β))
   rw [← coveredB_iff, ← coveredB_iff, ← coveredB_iff] at this
   cases h1 : coveredB (piecesOf A B) p <;> cases h2 : coveredB A p <;> cases h3 : coveredB B p <;> simp_all
 
+/-- the intersection is contained in the first set: `cov(a) - inter` does not truncate -/
+theorem interCount_le_coveredCount (A : List (Iv α)) (B : List (Iv β)) : interCount A B ≤ coveredCount A := by
+  have hN1 : maxStop A ≤ max (maxStop A) (maxStop B) := by omega
+  have hN2 : maxStop B ≤ max (maxStop A) (maxStop B) := by omega
+  rw [interCount_eq_cnt A B _ hN1 hN2, coveredCount_eq_cnt A _ hN1]
+  apply cnt_mono
+  intro p _ h
+  rw [Bool.and_eq_true] at h
+  exact h.1
+theorem interCount_le_coveredCount_right (A : List (Iv α)) (B : List (Iv β)) : interCount A B ≤ coveredCount B := by
+  rw [interCount_comm]; exact interCount_le_coveredCount B A
+
+/-- `|A ∪ B| = |A| − |A ∩ B| + |B|`, the order of operations of the repaired code; the truncated
+subtraction is exact -/
+theorem unionCount_eq_sub_add (A : List (Iv α)) (B : List (Iv β)) :
+    coveredCount A - interCount A B + coveredCount B = unionCount A B := by
+  have h1 := interCount_le_coveredCount A B
+  have h2 := unionCount_eq A B
+  omega
+
+/-- the union lies below the greatest stop -/
+theorem unionCount_le_maxStop (A : List (Iv α)) (B : List (Iv β)) : unionCount A B ≤ max (maxStop A) (maxStop B) := by
+  unfold unionCount
+  exact Nat.le_trans (List.length_filter_le _ _) (by rw [List.length_range]; exact Nat.le_refl _)
+
 /-- both code paths, for two states satisfying the invariant whose `merged` flags are honest -/
 theorem union_good (a : Lapper α) (b : Lapper β) (ha : Good a) (hb : Good b)
     (hma : a.merged = true → a.intervals.toList.Pairwise (fun x y => x.stop < y.start))
     (hmb : b.merged = true → b.intervals.toList.Pairwise (fun x y => x.stop < y.start)) :
     a.unionAndIntersect b =
       (unionCount a.intervals.toList b.intervals.toList, interCount a.intervals.toList b.intervals.toList) := by
-  rw [unionCount_eq, ← ha.getCov, ← hb.getCov]
+  rw [← unionCount_eq_sub_add, ← ha.getCov, ← hb.getCov]
   unfold Lapper.unionAndIntersect
   split
   · have hp := pieces_fold_eq a b ha hb
